@@ -55,168 +55,182 @@ def run(rep, tier, seed, replay=None):
         return
     rnd = random.Random(seed)
     import importlib
-    cases, meta = [], {}
     units_desc = []
-    plan_requests = []   # families with a SPEC-level faulty script (whole-query C10 theorems): driver requests
-    for fam in netprops.FAMILIES:
-        fmod = importlib.import_module("props.families." + fam)
-        if not hasattr(fmod, "c10_build"):
-            continue
-        valids = [v for v in netprops.valid_cases(fam, seed + 77, 400 if tier == "quick" else 4000) if fmod.c10_eligible(v)]
-        nbase = 6 if tier == "quick" else 80
-        bases = valids[:nbase]
-        # every kind of unit the family has (e.g. a fault after the challenge round) must occur in some base
-        have = set(u for b in bases for u in fmod.c10_units(b))
-        for b in valids[nbase:]:
-            new_units = set(fmod.c10_units(b)) - have
-            if new_units:
-                bases.append(b)
-                have |= new_units
-        units_desc.append(f"{fam}: units {sorted(have)} over {len(bases)} bases")
-        # units whose scripts are long (a reply of several datagrams delivered again and again): at most so many bases each
-        cap = getattr(fmod, "C10_BASE_CAP", {})
-        capped = {}
-        for bi, b in enumerate(bases):
-            units_here = []
-            for unit in fmod.c10_units(b):
-                if unit in cap:
-                    if capped.get(unit, 0) >= cap[unit]:
-                        continue
-                    capped[unit] = capped.get(unit, 0) + 1
-                units_here.append(unit)
-            for r in range(4):
-                vs = vectors(r)
-                if tier == "quick":
-                    keep = [v for v in vs if "M" not in v]
-                    vs = keep + rnd.sample([v for v in vs if "M" in v], min(12, len([v for v in vs if "M" in v])))
-                for unit in units_here:
-                    for v in vs:
-                        cid = f"{b.id}u{unit}r{r}{v}"
-                        cases.append(fmod.c10_build(b, unit, v, r, cid))
-                        meta[cid] = (b, unit, v, r, fmod)
-                        if hasattr(fmod, "c10_plan_request"):
-                            req = fmod.c10_plan_request(b, unit, v, r)
-                            if req:
-                                plan_requests.append(f"{cid} {req}")
-                        # the same vector with other malformed replies (empty datagram, one byte, a bare header): a reply
-                        # that is not a valid answer is never retried, whichever it is
-                        if "M" in v and (bi < 2 or tier == "thorough"):
-                            for mi, mal in enumerate(malformed.VARIANTS):
-                                malformed.CURRENT = mal
-                                try:
-                                    cid2 = f"{cid}e{mi}"
-                                    cases.append(fmod.c10_build(b, unit, v, r, cid2))
-                                    meta[cid2] = (b, unit, v, r, fmod)
-                                finally:
-                                    malformed.CURRENT = malformed.DEFAULT
+    first_pass = [True]
 
-    # the retry count is the caller's whatever the durations next to it are (none at all = blocking sockets, only some):
-    # a sample of the cases again with other durations in the settings — same expectations
-    TDS = ["-,-,-", "-,-,0:1", "-,7:0,-", "7:0,-,-", "0:1,0:1,0:1"]
-    sample = [c for c in cases if c.split(" ", 1)[0] in meta]
-    for j, line in enumerate(rnd.sample(sample, min(len(sample), 400 if tier == "quick" else 20000))):
-        cid = line.split(" ", 1)[0]
-        cid2 = f"{cid}td{j % len(TDS)}"
-        cases.append(f"{cid2} {line.split(' ', 1)[1]} td={TDS[j % len(TDS)]}")
-        meta[cid2] = meta[cid]
-    # the same cases as the SPEC's plan scripts (the scripts the whole-query theorems C10_<family>_query_* speak about):
-    # the line built here must BE the line the SPEC builds, and carries the prescribed outcome and sends
-    spec = {}
-    built = {c.split(" ", 1)[0]: c.split(" ", 1)[1] for c in cases}
-    # (the quick tier asks for every case; the thorough tier, whose vectors number hundreds of thousands, for a seeded
-    # sample of at most PLAN_SAMPLE per family — the plan line costs as much as the case itself)
-    PLAN_SAMPLE = 8000
-    by_family = {}
-    for req in plan_requests:
-        by_family.setdefault(meta[req.split(" ", 1)[0]][0].fam, []).append(req)
-    plan_requests = []
-    for fam in sorted(by_family):
-        reqs = by_family[fam]
-        plan_requests += reqs if len(reqs) <= PLAN_SAMPLE else rnd.sample(reqs, PLAN_SAMPLE)
-    for cid, out in vlib.run_model(plan_requests).items():
-        parts = out.split(" ## ")
-        tags = {}
-        for p in parts[1:]:
-            k, _, val = p.partition(" ")
-            tags[k] = val
-        spec[cid] = (parts[0], tags)
-
-    # several units of ONE query each losing some attempts (every unit has its own r + 1 tries: what an earlier unit
-    # used up must not be missing later): recovering vectors S/F^k V with k <= r at two or three units at once
-    multi = {}
-    for fam in netprops.FAMILIES:
-        fmod = importlib.import_module("props.families." + fam)
-        if not hasattr(fmod, "c10_build_multi"):
-            continue
-        valids = [v for v in netprops.valid_cases(fam, seed + 77, 400 if tier == "quick" else 4000) if fmod.c10_eligible(v)]
-        for bi, b in enumerate(valids[: (6 if tier == "quick" else 60)]):
-            units = fmod.c10_units(b)
-            sections = sorted(set(u % 3 for u in units))
-            if len(sections) < 2:
+    def one_pass(families):
+        """build, run and judge the cases of these families (the thorough tier goes family by family: its millions of
+        case lines and outputs would otherwise all be held at once)"""
+        cases, meta = [], {}
+        plan_requests = []   # families with a SPEC-level faulty script (whole-query C10 theorems): driver requests
+        for fam in families:
+            fmod = importlib.import_module("props.families." + fam)
+            if not hasattr(fmod, "c10_build"):
                 continue
-            for r in (1, 2, 3):
-                for rep_i in range(3 if tier == "quick" else 8):
-                    chosen = {}
-                    for sec in sections:
-                        cand = [u for u in units if u % 3 == sec]
-                        k = rnd.choice([0, 1, r, rnd.randrange(0, r + 1)])
-                        chosen[rnd.choice(cand)] = "".join(rnd.choice("SSF") for _ in range(k)) + "V"
-                    if sum(1 for v in chosen.values() if len(v) > 1) < 2:
-                        continue
-                    cid = f"{b.id}m{r}_{rep_i}_" + "_".join(f"{u}{v}" for u, v in sorted(chosen.items()))
-                    cases.append(fmod.c10_build_multi(b, chosen, r, cid))
-                    multi[cid] = (b, chosen, r, fmod)
+            valids = [v for v in netprops.valid_cases(fam, seed + 77, 400 if tier == "quick" else 4000) if fmod.c10_eligible(v)]
+            nbase = 6 if tier == "quick" else 80
+            bases = valids[:nbase]
+            # every kind of unit the family has (e.g. a fault after the challenge round) must occur in some base
+            have = set(u for b in bases for u in fmod.c10_units(b))
+            for b in valids[nbase:]:
+                new_units = set(fmod.c10_units(b)) - have
+                if new_units:
+                    bases.append(b)
+                    have |= new_units
+            units_desc.append(f"{fam}: units {sorted(have)} over {len(bases)} bases")
+            # units whose scripts are long (a reply of several datagrams delivered again and again): at most so many bases each
+            cap = getattr(fmod, "C10_BASE_CAP", {})
+            capped = {}
+            for bi, b in enumerate(bases):
+                units_here = []
+                for unit in fmod.c10_units(b):
+                    if unit in cap:
+                        if capped.get(unit, 0) >= cap[unit]:
+                            continue
+                        capped[unit] = capped.get(unit, 0) + 1
+                    units_here.append(unit)
+                for r in range(4):
+                    vs = vectors(r)
+                    if tier == "quick":
+                        keep = [v for v in vs if "M" not in v]
+                        vs = keep + rnd.sample([v for v in vs if "M" in v], min(12, len([v for v in vs if "M" in v])))
+                    for unit in units_here:
+                        for v in vs:
+                            cid = f"{b.id}u{unit}r{r}{v}"
+                            cases.append(fmod.c10_build(b, unit, v, r, cid))
+                            meta[cid] = (b, unit, v, r, fmod)
+                            if hasattr(fmod, "c10_plan_request"):
+                                req = fmod.c10_plan_request(b, unit, v, r)
+                                if req:
+                                    plan_requests.append(f"{cid} {req}")
+                            # the same vector with other malformed replies (empty datagram, one byte, a bare header): a reply
+                            # that is not a valid answer is never retried, whichever it is
+                            if "M" in v and (bi < 2 or tier == "thorough"):
+                                for mi, mal in enumerate(malformed.VARIANTS):
+                                    malformed.CURRENT = mal
+                                    try:
+                                        cid2 = f"{cid}e{mi}"
+                                        cases.append(fmod.c10_build(b, unit, v, r, cid2))
+                                        meta[cid2] = (b, unit, v, r, fmod)
+                                    finally:
+                                        malformed.CURRENT = malformed.DEFAULT
 
-    def oracle(case, impl, model, panic):
-        out = netprops.crash_oracle(case, impl, model, panic)
-        cid = case.split(" ", 1)[0]
-        if cid in multi and not out:
-            b, chosen, r, fmod = multi[cid]
-            rep.count("multi-unit-vectors")
+        # the retry count is the caller's whatever the durations next to it are (none at all = blocking sockets, only some):
+        # a sample of the cases again with other durations in the settings — same expectations
+        TDS = ["-,-,-", "-,-,0:1", "-,7:0,-", "7:0,-,-", "0:1,0:1,0:1"]
+        sample = [c for c in cases if c.split(" ", 1)[0] in meta]
+        for j, line in enumerate(rnd.sample(sample, min(len(sample), 400 if tier == "quick" else 20000))):
+            cid = line.split(" ", 1)[0]
+            cid2 = f"{cid}td{j % len(TDS)}"
+            cases.append(f"{cid2} {line.split(' ', 1)[1]} td={TDS[j % len(TDS)]}")
+            meta[cid2] = meta[cid]
+        # the same cases as the SPEC's plan scripts (the scripts the whole-query theorems C10_<family>_query_* speak about):
+        # the line built here must BE the line the SPEC builds, and carries the prescribed outcome and sends
+        spec = {}
+        built = {c.split(" ", 1)[0]: c.split(" ", 1)[1] for c in cases}
+        # (the quick tier asks for every case; the thorough tier, whose vectors number hundreds of thousands, for a seeded
+        # sample of at most PLAN_SAMPLE per family — the plan line costs as much as the case itself)
+        PLAN_SAMPLE = 8000
+        by_family = {}
+        for req in plan_requests:
+            by_family.setdefault(meta[req.split(" ", 1)[0]][0].fam, []).append(req)
+        plan_requests = []
+        for fam in sorted(by_family):
+            reqs = by_family[fam]
+            plan_requests += reqs if len(reqs) <= PLAN_SAMPLE else rnd.sample(reqs, PLAN_SAMPLE)
+        for cid, out in vlib.run_model(plan_requests).items():
+            parts = out.split(" ## ")
+            tags = {}
+            for p in parts[1:]:
+                k, _, val = p.partition(" ")
+                tags[k] = val
+            spec[cid] = (parts[0], tags)
+
+        # several units of ONE query each losing some attempts (every unit has its own r + 1 tries: what an earlier unit
+        # used up must not be missing later): recovering vectors S/F^k V with k <= r at two or three units at once
+        multi = {}
+        for fam in families:
+            fmod = importlib.import_module("props.families." + fam)
+            if not hasattr(fmod, "c10_build_multi"):
+                continue
+            valids = [v for v in netprops.valid_cases(fam, seed + 77, 400 if tier == "quick" else 4000) if fmod.c10_eligible(v)]
+            for bi, b in enumerate(valids[: (6 if tier == "quick" else 60)]):
+                units = fmod.c10_units(b)
+                sections = sorted(set(u % 3 for u in units))
+                if len(sections) < 2:
+                    continue
+                for r in (1, 2, 3):
+                    for rep_i in range(3 if tier == "quick" else 8):
+                        chosen = {}
+                        for sec in sections:
+                            cand = [u for u in units if u % 3 == sec]
+                            k = rnd.choice([0, 1, r, rnd.randrange(0, r + 1)])
+                            chosen[rnd.choice(cand)] = "".join(rnd.choice("SSF") for _ in range(k)) + "V"
+                        if sum(1 for v in chosen.values() if len(v) > 1) < 2:
+                            continue
+                        cid = f"{b.id}m{r}_{rep_i}_" + "_".join(f"{u}{v}" for u, v in sorted(chosen.items()))
+                        cases.append(fmod.c10_build_multi(b, chosen, r, cid))
+                        multi[cid] = (b, chosen, r, fmod)
+
+        def oracle(case, impl, model, panic):
+            out = netprops.crash_oracle(case, impl, model, panic)
+            cid = case.split(" ", 1)[0]
+            if cid in multi and not out:
+                b, chosen, r, fmod = multi[cid]
+                rep.count("multi-unit-vectors")
+                got = vlib.result_of(impl)
+                if got != b.want:
+                    out.append((f"retry-result-multi:{b.fam}", f"r={r}, vectors {chosen}: every unit lost at most r attempts, yet the result differs from the fault-free one: {got[:200]}"))
+                else:
+                    for u, v in chosen.items():
+                        attempts = fmod.c10_attempts(b, u, vlib.sends_of(impl), True)
+                        if attempts != len(v):
+                            out.append((f"retry-attempts-multi:{b.fam}", f"r={r}, vectors {chosen}: unit {u} was tried {attempts} times, expected {len(v)}"))
+                return out
+            if cid not in meta or out:
+                return out
+            b, unit, v, r, fmod = meta[cid]
+            want_attempts, want_res = expectation(v, r)
+            attempts = fmod.c10_attempts(b, unit, vlib.sends_of(impl), want_res == "CLEAN")
             got = vlib.result_of(impl)
-            if got != b.want:
-                out.append((f"retry-result-multi:{b.fam}", f"r={r}, vectors {chosen}: every unit lost at most r attempts, yet the result differs from the fault-free one: {got[:200]}"))
-            else:
-                for u, v in chosen.items():
-                    attempts = fmod.c10_attempts(b, u, vlib.sends_of(impl), True)
-                    if attempts != len(v):
-                        out.append((f"retry-attempts-multi:{b.fam}", f"r={r}, vectors {chosen}: unit {u} was tried {attempts} times, expected {len(v)}"))
+            rep.count(f"vector-class:{want_res.split(' ')[0]}")
+            rep.count(f"unit:{b.fam}:{unit}")
+            if cid in spec:
+                line, tags = spec[cid]
+                if line != built[cid]:
+                    out.append((f"spec-script:{b.fam}", f"unit {unit}, r={r}, vector {v}: the injected script is not the SPEC's plan script: {line[:160]}"))
+                elif tags.get("THM") == "1":
+                    rep.count("theorem-domain:" + b.fam)
+                    if got != tags.get("WANT"):
+                        out.append((f"retry-spec-result:{b.fam}", f"unit {unit}, r={r}, vector {v}: expected {tags.get('WANT', '')[:120]}, got {got[:200]}"))
+                    sent = ",".join(d + ("!" if failed else "") for (_, _, d, failed) in vlib.sends_of(impl))
+                    if sent != tags.get("SENT"):
+                        out.append((f"retry-spec-sends:{b.fam}", f"unit {unit}, r={r}, vector {v}: sends differ from the plan's: {sent[:200]}"))
+                    if "ATT" in tags and str(attempts) != tags["ATT"] and want_attempts == attempts:
+                        out.append((f"retry-spec-attempts:{b.fam}", f"unit {unit}, r={r}, vector {v}: {attempts} attempts, the plan has {tags['ATT']}"))
+                else:
+                    rep.count("outside-theorem-domain:" + b.fam)
+            if attempts != want_attempts:
+                out.append((f"retry-attempts:{b.fam}", f"unit {unit}, r={r}, vector {v}: {attempts} attempts on the wire, expected {want_attempts}"))
+            if want_res == "CLEAN":
+                if got != b.want:
+                    out.append((f"retry-result:{b.fam}", f"unit {unit}, r={r}, vector {v}: result differs from the fault-free result: {got[:200]}"))
+            elif want_res == "ERR-NON-TIMEOUT":
+                if not got.startswith("ERR ") or got in ("ERR PacketReceive", "ERR PacketSend"):
+                    out.append((f"retry-malformed:{b.fam}", f"unit {unit}, r={r}, vector {v}: expected a non-timeout error, got {got[:200]}"))
+            elif got != want_res:
+                sig = getattr(fmod, "c10_known", lambda *a: None)(unit, want_res, got) or f"retry-exhausted:{b.fam}"
+                out.append((sig, f"unit {unit}, r={r}, vector {v}: expected {want_res}, got {got[:200]}"))
             return out
-        if cid not in meta or out:
-            return out
-        b, unit, v, r, fmod = meta[cid]
-        want_attempts, want_res = expectation(v, r)
-        attempts = fmod.c10_attempts(b, unit, vlib.sends_of(impl), want_res == "CLEAN")
-        got = vlib.result_of(impl)
-        rep.count(f"vector-class:{want_res.split(' ')[0]}")
-        rep.count(f"unit:{b.fam}:{unit}")
-        if cid in spec:
-            line, tags = spec[cid]
-            if line != built[cid]:
-                out.append((f"spec-script:{b.fam}", f"unit {unit}, r={r}, vector {v}: the injected script is not the SPEC's plan script: {line[:160]}"))
-            elif tags.get("THM") == "1":
-                rep.count("theorem-domain:" + b.fam)
-                if got != tags.get("WANT"):
-                    out.append((f"retry-spec-result:{b.fam}", f"unit {unit}, r={r}, vector {v}: expected {tags.get('WANT', '')[:120]}, got {got[:200]}"))
-                sent = ",".join(d + ("!" if failed else "") for (_, _, d, failed) in vlib.sends_of(impl))
-                if sent != tags.get("SENT"):
-                    out.append((f"retry-spec-sends:{b.fam}", f"unit {unit}, r={r}, vector {v}: sends differ from the plan's: {sent[:200]}"))
-                if "ATT" in tags and str(attempts) != tags["ATT"] and want_attempts == attempts:
-                    out.append((f"retry-spec-attempts:{b.fam}", f"unit {unit}, r={r}, vector {v}: {attempts} attempts, the plan has {tags['ATT']}"))
-            else:
-                rep.count("outside-theorem-domain:" + b.fam)
-        if attempts != want_attempts:
-            out.append((f"retry-attempts:{b.fam}", f"unit {unit}, r={r}, vector {v}: {attempts} attempts on the wire, expected {want_attempts}"))
-        if want_res == "CLEAN":
-            if got != b.want:
-                out.append((f"retry-result:{b.fam}", f"unit {unit}, r={r}, vector {v}: result differs from the fault-free result: {got[:200]}"))
-        elif want_res == "ERR-NON-TIMEOUT":
-            if not got.startswith("ERR ") or got in ("ERR PacketReceive", "ERR PacketSend"):
-                out.append((f"retry-malformed:{b.fam}", f"unit {unit}, r={r}, vector {v}: expected a non-timeout error, got {got[:200]}"))
-        elif got != want_res:
-            sig = getattr(fmod, "c10_known", lambda *a: None)(unit, want_res, got) or f"retry-exhausted:{b.fam}"
-            out.append((sig, f"unit {unit}, r={r}, vector {v}: expected {want_res}, got {got[:200]}"))
-        return out
 
-    vlib.correspond(rep, netprops.corpus("C10") + cases, oracle=oracle, trivial=netprops.trivial, tag="c10")
+        corpus = netprops.corpus("C10") if first_pass[0] else []
+        first_pass[0] = False
+        vlib.correspond(rep, corpus + cases, oracle=oracle, trivial=netprops.trivial, tag="c10")
+
+    fams = [f for f in netprops.FAMILIES if hasattr(importlib.import_module("props.families." + f), "c10_build")]
+    if tier == "quick":
+        one_pass(fams)
+    else:
+        for f in fams:
+            one_pass([f])
     rep.extra_cov["units"] = units_desc
